@@ -873,6 +873,12 @@ type jeFinding struct {
 
 // replayJSON executes one behaviour on the real encoder (through an ioCore and directly).
 func replayJSON(b jeBeh, seed int64, hostile bool) (out []jeFinding, descr string, harnessErr error) {
+	return replayJSONMode(b, seed, hostile, false)
+}
+
+// replayJSONMode: console = true runs the same program through NewConsoleEncoder with no metadata
+// columns, so that the line is exactly the spaced JSON context (findings are then filed under C16).
+func replayJSONMode(b jeBeh, seed int64, hostile bool, console bool) (out []jeFinding, descr string, harnessErr error) {
 	ctxSegs, call, err := parseProg(b.Prog)
 	if err != nil {
 		return nil, "", err
@@ -890,8 +896,19 @@ func replayJSON(b jeBeh, seed int64, hostile bool) (out []jeFinding, descr strin
 	callFields := r.fields(call)
 	descr = fmt.Sprintf("prog=%v cfg=%+v fields=%v timeEnc=%s durEnc=%s level=%v", b.Prog, b.Cfg, r.descr, r.timeEnc, r.durEnc, w.ent.Level)
 	add := func(prop, key, f string, a ...interface{}) {
+		if console {
+			key = "C16/context:" + key[strings.IndexByte(key, '/')+1:]
+			prop = "C16"
+		}
 		out = append(out, jeFinding{prop, key, fmt.Sprintf(f, a...) + " [" + descr + "]"})
 	}
+	newEnc := func() zapcore.Encoder {
+		if console {
+			return zapcore.NewConsoleEncoder(w.cfg)
+		}
+		return zapcore.NewJSONEncoder(w.cfg)
+	}
+	emptyCtx := console && len(toks) <= 3 // "{ }" + line ending: the console encoder omits an empty context
 	faulty := r.faults > 0
 	lines := map[string][]byte{}
 	// path 1: ioCore (With = Clone + addFields; Write = EncodeEntry + sink write)
@@ -909,7 +926,7 @@ func replayJSON(b jeBeh, seed int64, hostile bool) (out []jeFinding, descr strin
 			}
 		}()
 		sink := &jeSink{}
-		core := zapcore.NewCore(zapcore.NewJSONEncoder(w.cfg), sink, zapcore.Level(-128))
+		core := zapcore.NewCore(newEnc(), sink, zapcore.Level(-128))
 		for _, sf := range segFields {
 			core = core.With(sf)
 		}
@@ -939,7 +956,7 @@ func replayJSON(b jeBeh, seed int64, hostile bool) (out []jeFinding, descr strin
 				}
 			}
 		}()
-		enc := zapcore.NewJSONEncoder(w.cfg)
+		enc := newEnc()
 		for _, sf := range segFields {
 			enc = enc.Clone()
 			for _, f := range sf {
@@ -961,6 +978,12 @@ func replayJSON(b jeBeh, seed int64, hostile bool) (out []jeFinding, descr strin
 	for _, path := range []string{"core", "encoder"} {
 		line := lines[path]
 		if line == nil {
+			continue
+		}
+		if emptyCtx {
+			if string(line) != w.ending {
+				add("C01", "C01/invalid-json", "%s: no field produced output, yet the console line is %q (want only the line ending)", path, trunc(string(line)))
+			}
 			continue
 		}
 		if err := strictJSONObjectLine(line, w.ending); err != nil {
@@ -999,7 +1022,7 @@ func replayJSON(b jeBeh, seed int64, hostile bool) (out []jeFinding, descr strin
 		}
 	}
 	// C02: same nesting as the map encoder records
-	if line := lines["encoder"]; line != nil && !faulty {
+	if line := lines["encoder"]; line != nil && !faulty && !console {
 		if msg := compareWithMapEncoder(line[:len(line)-len(w.ending)], w, segFields, callFields); msg != "" {
 			add("C02", "C02/map-encoder-differs", "%s", msg)
 		}
